@@ -61,10 +61,13 @@ def split_sessions(ctx, trace):
 def events(lines, ev, nontrivial, tag):
     """Counts what the driven calls exercised (vacuity guard and evidence only - never a verdict)."""
     pre = None
-    routable = {}
+    routable = {}; embedded = set()
     for k, o in enumerate(lines):
         if o["e"] == "Reset":
             routable = o["uni"]["routable"]
+            # addresses the two classification functions put into different networks (GetNetwork() / GetNetClass())
+            embedded = set(a for a, n in o["uni"]["net"].items() if o["uni"]["cls"][a] != n)
+            ev["universe_addresses_net_differs_from_class"] = max(ev["universe_addresses_net_differs_from_class"], len(embedded))
         st = o.get("st")
         e = o["e"]
         ev["calls:" + e] += 1
@@ -102,8 +105,13 @@ def events(lines, ev, nontrivial, tag):
                 if len(pre["coll"]) + pre["stale"] == 10 and info[o["a"]]["known"] and not info[o["a"]]["tried"] and o["a"] not in st["coll"]:
                     ev["good_collision_set_full"] += 1
             elif e == "Resolve":
+                entered = [a for a in info if info[a]["tried"] and not pinfo[a]["tried"]]
                 if evicted:
                     ev["resolve_evicts_to_new"] += 1; interesting = True
+                    if set(evicted) & embedded:
+                        ev["embedded_ipv4_address_evicted"] += 1
+                    if set(entered) & embedded and set(evicted) - embedded:
+                        ev["ordinary_address_evicted_by_embedded_ipv4"] += 1
                     if gone:
                         ev["eviction_deletes_new_entry"] += 1
                 if o["order"] and st["coll"]:
@@ -125,6 +133,8 @@ def events(lines, ev, nontrivial, tag):
             elif e == "Reload":
                 if st["new"] and st["tried"]:
                     ev["reload_with_both_tables"] += 1; interesting = True
+                if any(info[a]["known"] for a in embedded):
+                    ev["reload_with_embedded_ipv4_address"] += 1
             if interesting:
                 nontrivial.add(vflib.digest([tag, k]))
         ev["max_refcount"] = max(ev["max_refcount"], max(i["ref"] for i in info.values()))
@@ -223,7 +233,8 @@ def run(ctx):
         need = ["add_blocked_by_occupant", "add_refcount_increase", "add_overwrite_deletes_entry", "add_at_refcount_8", "good_moved_to_tried",
                 "good_collision_recorded", "resolve_evicts_to_new", "seltc_returns_occupant",
                 "select_returns_address", "reload_with_both_tables", "states_with_stale_collision_id", "calls:GetAddr", "calls:Connected",
-                "calls:SetServices", "calls:Attempt", "add_vector"]
+                "calls:SetServices", "calls:Attempt", "add_vector", "embedded_ipv4_address_evicted", "ordinary_address_evicted_by_embedded_ipv4",
+                "reload_with_embedded_ipv4_address"]
         missing = [k for k in need if not ev[k]]
         if ev["max_refcount"] < 8:
             missing.append("refcount 8")
